@@ -304,8 +304,8 @@ def regenerate():
         text = render()
     except (ExtractError, SyntaxError, OSError, AttributeError, KeyError, IndexError) as e:
         # fail closed: remove the generated file so nothing depending on it can be (re)built from stale data
-        if os.path.exists(path):
-            os.remove(path)
+        # keep the previously generated file: the proof status is reported as broken by the caller, but the
+        # correspondence harness can still be built (against the last understood model) to search for a failing input
         return False, f"{type(e).__name__}: {e}"
     old = open(path).read() if os.path.exists(path) else None
     if old != text:
